@@ -249,7 +249,19 @@ func runC08(c *Ctx) {
 			}
 			// size reader under the lock
 			sli := sizeLit.Locks()
-			for _, ret := range sizeLit.CFG().Returns() {
+			// every read of the set's size in the reader happens with the mutex held (the value
+			// may be returned after the release)
+			var reads []*ast.CallExpr
+			for _, lc := range sizeLit.Calls("builtin.len") {
+				if len(lc.Args) == 1 {
+					if _, isMap := sizeLit.Info().Types[lc.Args[0]].Type.Underlying().(*eng.MapType); isMap {
+						reads = append(reads, lc)
+					}
+				}
+			}
+			c.Check(K(sizeLit.Name, "reads size"), sizeLit.Pos(), len(reads) >= 1, "the size reader reads the accepted set's size", "no len() of the set")
+			for _, lc := range reads {
+				var ret ast.Node = lc
 				held := sli.HeldBefore(ret)
 				c.Check(K(sizeLit.Name, "size under lock"), ret.Pos(), len(held) >= 1, "the accepted count is read under the mutex", "no lock held")
 			}
